@@ -258,3 +258,121 @@ func notRequestKey(c *Ctx, m *cmdModel, v ssa.Value, depth int, seen map[ssa.Val
 	}
 	return "a value of another origin (" + v.Name() + ")"
 }
+
+// ---- the reservation that is released is the one that was taken (R07h, R10h, R11e) ------------------------------
+//
+// Referencer.take(kind, key) reserves one entry; Referencer.release(kind, key) must give back that entry and nothing
+// else. Decided on the two functions: take stores under a key built from (kind, key) in the table of that kind;
+// release performs exactly one mutation of a sync.Map — Delete — on the table of the same kind, with a key built the
+// same way from its own parameters. A release that clears the table (Clear, Range+Delete, a new map) drops the
+// reservations of every other request in flight: their duplicates are then accepted.
+func ruleReferencerSymmetric(c *Ctx, rule string) {
+	m := c.cmdModel(rule)
+	if !m.ok || m.take == nil || m.release == nil {
+		return
+	}
+	type op struct {
+		name  string
+		table string // description of the receiver
+		key   string // canonical text of the key, parameters by position
+		pos   token.Pos
+	}
+	canon := func(fn *ssa.Function, v ssa.Value) string {
+		out := ""
+		vs := strParts(v)
+		if len(vs) != 1 {
+			if mi, ok := v.(*ssa.MakeInterface); ok {
+				vs = strParts(mi.X)
+			}
+		}
+		if len(vs) != 1 {
+			return descrByParam(fn, v)
+		}
+		for _, p := range vs[0] {
+			if p.isLit() {
+				out += p.lit
+			} else {
+				out += "{" + descrByParam(fn, p.dyn) + "}"
+			}
+		}
+		return out
+	}
+	collect := func(fn *ssa.Function) []op {
+		var ops []op
+		allCalls(fn, func(ci ssa.CallInstruction) {
+			g := staticCallee(ci)
+			if g == nil || recvTypeName(g) != "Map" || fnPkgPath(g) != "sync" {
+				return
+			}
+			switch g.Name() {
+			case "Load", "Range": // reads (Range is judged by what its callback does: a literal calling Delete shows up as its own call)
+				if g.Name() == "Load" {
+					return
+				}
+			}
+			args := ci.Common().Args
+			o := op{name: g.Name(), table: descrByParam(fn, args[0]), pos: ci.Pos()}
+			if len(args) > 1 {
+				o.key = canon(fn, args[1])
+			}
+			ops = append(ops, o)
+		})
+		for _, lit := range fn.AnonFuncs {
+			allCalls(lit, func(ci ssa.CallInstruction) {
+				if g := staticCallee(ci); g != nil && recvTypeName(g) == "Map" && fnPkgPath(g) == "sync" && g.Name() != "Load" {
+					ops = append(ops, op{name: g.Name() + " (in a literal)", pos: ci.Pos()})
+				}
+			})
+		}
+		return ops
+	}
+	takeOps, relOps := collect(m.take), collect(m.release)
+	key := "Referencer:release-gives-back-exactly-what-take-reserved"
+	var tk *op
+	for i := range takeOps {
+		if takeOps[i].name == "LoadOrStore" {
+			tk = &takeOps[i]
+		}
+	}
+	switch {
+	case tk == nil:
+		c.undecided(rule, key, m.take.Pos(), "Referencer.take does not reserve with sync.Map.LoadOrStore: the reservation moved out of the shape this rule decides")
+	case len(relOps) != 1 || relOps[0].name != "Delete":
+		var names []string
+		for _, o := range relOps {
+			names = append(names, o.name)
+		}
+		pos := m.release.Pos()
+		if len(relOps) > 0 {
+			pos = relOps[0].pos
+		}
+		c.bad(rule, key, pos, fmt.Sprintf("Referencer.release changes the reservation table with [%s] instead of one Delete of its own entry: the reservations of the other requests in flight are dropped, and their duplicates are accepted", strings.Join(names, ", ")))
+	case relOps[0].table != tk.table || relOps[0].key != tk.key:
+		c.bad(rule, key, relOps[0].pos, fmt.Sprintf("Referencer.release deletes %s in %s, but take reserved %s in %s: the entry that was taken stays reserved forever (or another one is freed)", relOps[0].key, relOps[0].table, tk.key, tk.table))
+	default:
+		c.ok(rule, key, relOps[0].pos, "release deletes the entry "+tk.key+" of the table "+tk.table+", as take stored it")
+	}
+}
+
+// descrByParam: descr with the function's parameters named by position, so that two functions can be compared.
+func descrByParam(fn *ssa.Function, v ssa.Value) string {
+	saved := map[ssa.Value]*string{}
+	for i, p := range fn.Params {
+		if old, ok := descrAlias[p]; ok {
+			o := old
+			saved[p] = &o
+		} else {
+			saved[p] = nil
+		}
+		descrAlias[p] = fmt.Sprintf("#%d", i)
+	}
+	out := descr(v, 0)
+	for k, o := range saved {
+		if o == nil {
+			delete(descrAlias, k)
+		} else {
+			descrAlias[k] = *o
+		}
+	}
+	return out
+}
